@@ -18,7 +18,7 @@ MANIFEST = dict(
     category="proof",
     text=("Theorems (Properties/C05.v): the client lookups are state-preserving, the resolvers are functions of the client's answers, "
           "the client's observable state does not depend on insertion order, and any interleaving of the client calls of k resolutions "
-          "returns to each what it returns alone. On the implementation every generated history is checked directly: graphs after Canon "
+          "returns to each what it returns alone; caches kept on a resolver are invisible (C05_cache_sound: any cache of the function's own answers under any drop-or-add policy; C05_lru_sound/_bounded for the LRU of lru.go, whose model is run against the Go cache on operation sequences through hook H8). On the implementation every generated history is checked directly: graphs after Canon "
           "identical when asked again, on a fresh client, under permuted insertion and from 16 goroutines; client snapshots identical "
           "before and after; the concurrent variant also runs under the race detector."),
     note=("Partial for schedules: torn reads / the Go memory model cannot be exhibited by the model; -race runs are supporting evidence. "
@@ -176,6 +176,53 @@ def cache_pressure_history():
     return [2, [z, big, lib_, app], roots, [7, 3, 11, 5], 0]
 
 
+def lru_sequences(ctx):
+    """The resolver's caches are instances of one LRU (util/resolve/pypi/internal/lru, hook H8): operation
+    sequences on small caches, Go against the model of Lib/Cache.v and against a python reference (an ordered
+    dict); every Get must return the value last added for the key, or nothing if it was evicted or never added."""
+    rng = ctx.rng
+    cases = []
+    for _ in range(ctx.scale(1500, 40000)):
+        size = rng.choice([1, 1, 2, 2, 3, 4, 5, 8])
+        keys = list(range(rng.randrange(1, size + 4)))
+        ops = []
+        for _ in range(rng.randrange(1, 40)):
+            if rng.random() < 0.55:
+                ops.append([0, rng.choice(keys), rng.randrange(1000)])
+            else:
+                ops.append([1, rng.choice(keys)])
+        ops += [[1, k] for k in keys]
+        cases.append([size, ops])
+    impl, model = ctx.correspond("lru_ops", [sx(c) for c in cases])
+    import collections
+    for c, line in zip(cases, impl):
+        size, ops = c
+        od = collections.OrderedDict()
+        want = []
+        for o in ops:
+            if o[0] == 0:
+                if o[1] in od:
+                    od[o[1]] = o[2]
+                    od.move_to_end(o[1])
+                else:
+                    if len(od) >= size:
+                        od.popitem(last=False)
+                    od[o[1]] = o[2]
+            else:
+                if o[1] in od:
+                    want.append(od[o[1]])
+                    od.move_to_end(o[1])
+                else:
+                    want.append(-1)
+        got = parse_sx(line)
+        ctx.nontriv(("lru", sx(c)))
+        if got != want:
+            ctx.violation("the LRU cache behind the resolver's caches returns a value that was not the last one added for the key "
+                          "(or loses/keeps an entry against its policy)", sx(c), observed=sx(got), required=sx(want))
+    ctx.count("lru:sequences", len(cases))
+    ctx.count("lru:with_eviction", sum(1 for size, ops in cases if len({o[1] for o in ops if o[0] == 0}) > size))
+
+
 def classify(ctx, case, line, race=False):
     sysr = case[0]
     name = ["npm", "Maven", "PyPI"][sysr]
@@ -209,6 +256,7 @@ def classify(ctx, case, line, race=False):
 
 def run(ctx):
     rng = ctx.rng
+    lru_sequences(ctx)
     n = ctx.scale(240, 9000)
     cases = [universe(rng, i % 3) for i in range(n)] + [cache_pressure_history()]
     outs = ctx.impl_surviving("purity", [sx(c) for c in cases])
